@@ -107,7 +107,11 @@ def default_pick(prog, root, keep=(), cross=None):
             # a non-public function of a sibling module (same directory) is an implementation detail
             # shared inside that part of the crate; primitives and infrastructure modules are not
             import os as _os
-            if _os.path.dirname(g.file) != _os.path.dirname(root.file) or g.path.lstrip("<").startswith(PRIMITIVE_MODULES):
+            top = lambda fn_: fn_.path.lstrip("<&mut ").split("::")[0]
+            same_module_tree = top(g) == top(root) and top(g) != "classic"
+            siblings = _os.path.dirname(g.file) == _os.path.dirname(root.file) and not g.path.lstrip("<").startswith(PRIMITIVE_MODULES)
+            nested = _os.path.dirname(g.file) == root.file[:-3] or _os.path.dirname(root.file) == g.file[:-3]
+            if not (same_module_tree or siblings or nested):
                 return False
         for k in keep:
             if callable(k):
